@@ -67,6 +67,7 @@ struct Scene {
   double R = 0;           // feature scale
   bool ok = false;        // passed the GP filter
   bool vacuous = false;   // tolerance exceeds 1/200 of feature scale
+  int squash = 0;         // x stretched by this factor (negative: y squeezed by it), 0 = isotropic
   long long crossings = 0;
 };
 
@@ -146,7 +147,7 @@ inline Scene gp_scene(Rng& r, GpCounters& gc, int magexp, int shape = -1, int ma
   Scene sc; sc.magclass = magexp;
   const int64_t Mmax = (int64_t)1 << magexp;
   for (int t = 0; t < max_tries; ++t) {
-    ++gc.tries;
+    ++gc.tries; sc.squash = 0;
     int sh = shape >= 0 ? shape : r.irange(0, 6);
     if (t > max_tries / 2) sh = r.irange(0, 1);        // fall back to the simplest classes
     // feature scale: either the whole range, or a moderate feature translated far away
@@ -171,10 +172,22 @@ inline Scene gp_scene(Rng& r, GpCounters& gc, int magexp, int shape = -1, int ma
     for (auto* pp : { &sc.subj, &sc.clip }) for (auto& p : *pp) for (auto& pt : p)
       if (pt.x > Mmax || pt.x < -Mmax || pt.y > Mmax || pt.y < -Mmax) inrange = false;
     if (!inrange) { ++gc.rejected; continue; }
+    // anisotropic ("squashed") scenes: stretch x by a large factor so that most edges are nearly horizontal
+    // (|dx/dy| > 100 reaches the flat-edge repair branches of the sweep that isotropic scenes never execute)
+    if (magexp >= 20 && r.chance(0.12)) {
+      static const int64_t ks[] = { 30, 200, 1500, 20000 };
+      int64_t k = ks[r.irange(0, 3)];
+      int64_t mx = max_abs_coord(concat(sc.subj, sc.clip));
+      if (mx > 0 && mx <= Mmax / k) { for (auto* pp : { &sc.subj, &sc.clip }) for (auto& p : *pp) for (auto& pt : p) pt.x *= k; sc.squash = (int)k; }
+      else { // no room to stretch: squeeze y instead (keeps the magnitude)
+        for (auto* pp : { &sc.subj, &sc.clip }) for (auto& p : *pp) { for (auto& pt : p) pt.y /= k; strip_dups_closed(p); }
+        sc.squash = -(int)k;
+      }
+    }
     Paths64 all = concat(sc.subj, sc.clip);
     sc.M = max_abs_coord(all);
     GPStats st;
-    if (!general_position(all, sc.M, &st)) { ++gc.rejected; continue; }
+    if (!general_position(all, sc.M, &st)) { ++gc.rejected; sc.squash = 0; continue; }
     sc.ok = true; sc.shape = sh; sc.R = R; sc.crossings = st.crossings;
     sc.vacuous = ldexp((double)sc.M, -42) > 1.0 && (double)tol_of(sc.M) * 200.0 > R;
     return sc;
